@@ -516,6 +516,30 @@ fn run_dict(v: &[u64]) {
             (Ok(_), Err(_)) | (Err(_), Ok(_)) => vassert!(false, "VF:dictionary.reserve.changed_push_outcome"),
             _ => {}
         }
+        // the same through a FlatStack, empty or populated when it reserves (its reserve_* only forward)
+        {
+            use flatcontainer::FlatStack;
+            for prefill in 0..2 {
+                let mut fs = <FlatStack<CR>>::default();
+                let mut tw = <FlatStack<CR>>::default();
+                if prefill == 1 {
+                    fs.copy(&b"abc"[..]);
+                    tw.copy(&b"abc"[..]);
+                }
+                fs.reserve_regions([&s1, &s2].into_iter());
+                fs.reserve(3);
+                for sel in [v[3], v[4], 5, 12, 1] {
+                    let p = probe(sel, &t1);
+                    let a = catch_unwind(AssertUnwindSafe(|| { tw.copy(p.as_slice()); tw.get(tw.len() - 1).to_vec() }));
+                    let b = catch_unwind(AssertUnwindSafe(|| { fs.copy(p.as_slice()); fs.get(fs.len() - 1).to_vec() }));
+                    match (a, b) {
+                        (Ok(x), Ok(y)) => vassert!(x == y && fs.len() == tw.len(), "VF:dictionary.reserve.changed_push_outcome"),
+                        (Ok(_), Err(_)) | (Err(_), Ok(_)) => vassert!(false, "VF:dictionary.reserve.changed_push_outcome"),
+                        _ => {}
+                    }
+                }
+            }
+        }
         crate::section("");
     }
     if v[5] == 1 {
@@ -933,6 +957,23 @@ fn run_ccomp(v: &[u64]) {
             let (x, y) = m.index(j);
             vassert!(x.into_owned() == a2 && y == d2, "VF:coded_composite.merge_read");
         }
+        // clear: the coded fields are fresh again (raw Huffman storage, no dictionary), also after a refill cycle
+        crate::section("VF:coded_composite.clear");
+        for mut t in [s1, m] {
+            let mut twin = R::default();
+            for cycle in 0..2 {
+                t.clear();
+                for row in [(&[7u8, 7, 9][..], &[0u8, 1, 2][..]), (a2, d1), (&[][..], &[1u8][..]), (a1, d2)] {
+                    let (i, j) = (t.push(row), twin.push(row));
+                    vassert!(i == j, "VF:coded_composite.clear.index_differs_from_fresh");
+                    let (x, y) = t.index(i);
+                    vassert!(x.into_owned() == row.0 && y == row.1, "VF:coded_composite.clear.read");
+                }
+                if cycle == 0 {
+                    twin = R::default();
+                }
+            }
+        }
     } else {
         type R = ResultRegion<HuffmanContainer<u8>, CR>;
         let mut s1 = R::default();
@@ -948,6 +989,17 @@ fn run_ccomp(v: &[u64]) {
         let j = m.push(Err::<&[u8], &[u8]>(d1));
         vassert!(m.index(i).map(|w| w.into_owned()).ok() == Some(a1.to_vec()), "VF:coded_composite.merge_read");
         vassert!(m.index(j).err() == Some(d1), "VF:coded_composite.merge_read");
+        crate::section("VF:coded_composite.clear");
+        for mut t in [s1, m] {
+            let mut twin = R::default();
+            t.clear();
+            for row in [Ok::<&[u8], &[u8]>(&[7u8, 7, 9][..]), Err::<&[u8], &[u8]>(&[0u8, 1, 2][..]), Ok(a2), Err(d1), Err(&[1u8][..])] {
+                let (i, j) = (t.push(row), twin.push(row));
+                vassert!(i == j, "VF:coded_composite.clear.index_differs_from_fresh");
+                let got = t.index(i).map(|w| w.into_owned()).map_err(|e| e.to_vec());
+                vassert!(got == row.map(|w| w.to_vec()).map_err(|e| e.to_vec()), "VF:coded_composite.clear.read");
+            }
+        }
     }
 }
 
@@ -963,8 +1015,8 @@ pub fn harnesses() -> Vec<H> {
             bound: "HuffmanContainer<u16>: 50 occurrences of a foreign symbol pushed into a raw or coded container, clear, then exactly one of 7 profiles, merge: code cost equals the reference for that profile alone and the foreign symbol is refused", kani: false },
         H { name: "codec_clone", props: &["C09"], nargs: 4, pre: pre_hclone, doms: doms_hclone, run: run_hclone, panic_ok: false,
             bound: "HuffmanContainer<u16>: 8 profiles x source state (raw empty / raw with items / coded without pushes / coded with items) x clone or clone_from into a raw destination, a coded destination with a foreign code book, or a coded destination whose book has the same shape but the reversed frequency ranking, each holding items; identical further push, independence", kani: false },
-        H { name: "coded_composites_merge", props: &["C10", "C01"], nargs: 2, pre: pre_ccomp, doms: doms_ccomp, run: run_ccomp, panic_ok: false,
-            bound: "TupleABRegion<HuffmanContainer<u8>, CodecRegion<DictionaryCodec>> and ResultRegion<..>: merge_regions over 1 or 2 source regions, then rows covered by the passed sources' statistics must be accepted and read back", kani: false },
+        H { name: "coded_composites_merge", props: &["C10", "C01", "C08"], nargs: 2, pre: pre_ccomp, doms: doms_ccomp, run: run_ccomp, panic_ok: false,
+            bound: "TupleABRegion<HuffmanContainer<u8>, CodecRegion<DictionaryCodec>> and ResultRegion<..>: merge_regions over 1 or 2 source regions, then rows covered by the passed sources' statistics must be accepted and read back; clear of a populated / merged composite, then rows with unseen symbols and tag-like literals compared with a default twin", kani: false },
         H { name: "huffman_wrapped", props: &["C14", "C15"], nargs: 4, pre: pre_wrapped, doms: doms_wrapped, run: run_wrapped, panic_ok: false,
             bound: "Wrapped items, raw versus Huffman-encoded under two different code books, 9 profiles (incl. Fibonacci-skewed ones with 10 and 16 symbols: codes longer than a byte) x all pairs of 12 item shapes x 4 clone_onto targets: ==, partial_cmp, cmp against the owned vectors; into_owned / clone_onto / borrow_as; region-to-region push", kani: false },
         H { name: "huffman_forms", props: &["C20"], nargs: 2, pre: pre_hforms, doms: doms_hforms, run: run_hforms, panic_ok: false,
